@@ -504,6 +504,11 @@ func (vs *ValidatorStore) GetEndBlockUpdate(ctx *ValidatorContext, req types.Req
 		sort.Strings(keysLA)
 
 		for _, addr := range keysLA {
+			// without anybody elected the removals would empty the validator set, which Tendermint
+			// refuses with a consensus failure: keep the last set until somebody qualifies
+			if activeCount == 0 {
+				break
+			}
 			addrHuman := keys.Address(addr).Humanize()
 			pub, ok := nonTopValidators[addrHuman]
 			if !ok {
